@@ -117,8 +117,11 @@ fn check_normal_string_error(string_token: &LuaSyntaxToken) -> Result<(), String
                             if let Some('{') = chars.next() {
                                 let unicode_hex =
                                     chars.by_ref().take_while(|c| *c != '}').collect::<String>();
-                                if let Ok(code_point) = u32::from_str_radix(&unicode_hex, 16)
-                                    && std::char::from_u32(code_point).is_none()
+                                // Lua accepts any value below 2^31 (5.4+), including surrogates:
+                                // `std::char::from_u32` is stricter than the reference lexer.
+                                if u32::from_str_radix(&unicode_hex, 16)
+                                    .map(|code_point| code_point > 0x7FFF_FFFF)
+                                    .unwrap_or(true)
                                 {
                                     return Err(t!(
                                         "Invalid unicode escape sequence '\\u{{%{unicode_hex}}}'",
@@ -129,14 +132,23 @@ fn check_normal_string_error(string_token: &LuaSyntaxToken) -> Result<(), String
                             }
                         }
                         '0'..='9' => {
-                            // Decimal escape sequence
+                            // Decimal escape sequence: up to three digits, value at most 255
+                            let mut value = next_char.to_digit(10).unwrap_or(0);
                             for _ in 0..2 {
                                 if let Some(digit) = chars.peek() {
                                     if !digit.is_ascii_digit() {
                                         break;
                                     }
+                                    value = value * 10 + digit.to_digit(10).unwrap_or(0);
                                     chars.next();
                                 }
+                            }
+                            if value > 255 {
+                                return Err(t!(
+                                    "Decimal escape too large '\\%{value}'",
+                                    value = value
+                                )
+                                .to_string());
                             }
                         }
                         'z' => {
@@ -176,7 +188,8 @@ fn check_dots_literal_error(
             let signature_id =
                 LuaSignatureId::from_closure(semantic_model.get_file_id(), &closure_expr);
             let signature = context.db.get_signature_index().get(&signature_id)?;
-            if !signature.params.iter().any(|param| param == "...") {
+            // a named vararg parameter (`...rest`, Lua 5.5) is stored under its name: ask the signature
+            if !signature.is_vararg && !signature.params.iter().any(|param| param == "...") {
                 context.add_diagnostic(
                     DiagnosticCode::SyntaxError,
                     literal_expr.get_range(),
